@@ -96,6 +96,8 @@ def gen_config(rng, small=False):
     target = {'kind': kind, 'tseed': rng.randrange(1 << 30)}
     if kind == 'tt':
         target['rho'] = rng.randint(1, 3)
+    if rng.random() < 0.12:
+        target['scale'] = rng.choice([1e-70, 1e-70, 1e-30, 1e+40])      # the magnitude of the tensor is arbitrary
     dr_min = rng.choice([0, 0, 1, 1, 1, 2])
     dr_max = dr_min + rng.choice([0, 0, 1, 2])
     cfg = {
@@ -127,7 +129,7 @@ def gen_config(rng, small=False):
 def generate(rng, prop, tier):
     if prop == 'C06':
         cfg = gen_config(rng)
-        return {'engine': NAME, 'mode': 'enumerate', 'cfg': cfg,
+        return {'engine': NAME, 'mode': 'enumerate', 'cfg': cfg, 'share_info': rng.random() < 0.4,
                 'pre': {'frac': rng.choice([0.1, 0.5, 0.9, 1.0]), 'extra': rng.randint(0, 6),
                         'seed': rng.randrange(1 << 30)},
                 'combo_seed': rng.randrange(1 << 30), 'n_combo': 12,
@@ -139,6 +141,8 @@ def generate(rng, prop, tier):
     if mode != 'any':
         rho = rng.randint(1, 3)
         cfg['target'] = {'kind': 'tt', 'rho': rho, 'tseed': rng.randrange(1 << 30)}
+        if rng.random() < 0.12:
+            cfg['target']['scale'] = rng.choice([1e-70, 1e-70, 1e-30, 1e+40])
         if mode == 'fixed':
             cfg['y0']['r'] = rho
             cfg['dr_min'] = cfg['dr_max'] = 0
@@ -178,7 +182,7 @@ def generate(rng, prop, tier):
         kind = rng.choice(['none_at', 'm', 'cb_at'])
         crashes.append({'kind': kind, 'q': round(rng.random(), 4), 'early': rng.random() < 0.6,
                         'fresh_y0': rng.random() < 0.35, 'y0seed': rng.randrange(1 << 30)})
-    return {'engine': NAME, 'mode': 'incarnations', 'cfg': cfg, 'expect': mode,
+    return {'engine': NAME, 'mode': 'incarnations', 'cfg': cfg, 'expect': mode, 'share_info': rng.random() < 0.4,
             'cache0': rng.choice(['empty', 'empty', 'pre', 'foreign']),
             'pre': {'frac': rng.choice([0.2, 0.6, 1.0]), 'extra': rng.randint(0, 6), 'seed': rng.randrange(1 << 30)},
             'crashes': crashes}
@@ -193,6 +197,8 @@ class Obs:
 def materialise(cfg):
     n = cfg['n']
     T = make_table(n, cfg['target'])
+    if cfg['target'].get('scale') and cfg.get('ret') != 'f32':
+        T = T * cfg['target']['scale']
     if cfg.get('ret') == 'f32':
         # a single-precision objective: the tensor it defines is the table rounded to float32
         T = T.astype(np.float32).astype(np.float64)
@@ -205,7 +211,7 @@ def materialise(cfg):
     return T, Y0, I_vld, y_vld
 
 
-def run_once(cfg, world, plan, cache=None, Y0=None, stop_args=None, keep_tensors=True, sweep_cap=None):
+def run_once(cfg, world, plan, cache=None, Y0=None, stop_args=None, keep_tensors=True, sweep_cap=None, info=None):
     """One real teneva.cross call against the stub world. plan: none_at / m / cb_at."""
     T, Y0_, I_vld, y_vld = world
     Y0 = Y0_ if Y0 is None else Y0
@@ -217,7 +223,7 @@ def run_once(cfg, world, plan, cache=None, Y0=None, stop_args=None, keep_tensors
                     ret_list=cfg.get('ret_list', False) or cfg.get('ret') == 'list', ret_f32=cfg.get('ret') == 'f32')
     o.mon = Monitor(o.events, cb_at=plan.get('cb_at'), jumps=cfg.get('jumps'), keep_tensors=keep_tensors,
                     sweep_cap=sweep_cap or 40)
-    o.info = {}
+    o.info = {} if info is None else info       # a caller may keep ONE progress record across calls
     o.cache = cache
     o.cache_in = None if cache is None else dict(cache)
     Y0_bytes = [G.tobytes() for G in Y0]
@@ -589,9 +595,11 @@ def execute_enumerate(scen):
     sim_time = 0.0
     h = []
     # fault-free twin and the pre-iteration twin
-    tw = run_once(cfg, world, {})
+    shared = {} if scen.get('share_info') else None      # one info dictionary re-used by every call of this scenario
+    tw = run_once(cfg, world, {}, info=shared)
     runs += 1
     sim_time += tw.sim_time
+    tw.info = dict(tw.info)
     ok = check_direct(tw, cfg, {}, 'none', n, V, stats, 'fault-free twin')
     if not ok or tw.info.get('stop') is None:
         return {'violations': V, 'runs': runs, 'stats': {'probe.' + k if not k.startswith('probe.') else k: v for k, v in stats.items()},
@@ -619,10 +627,13 @@ def execute_enumerate(scen):
             continue
         ck = plan.get('cache', 'none')
         cache = None if ck == 'none' else ({} if ck == 'empty' else dict(pre_cache))
-        o = run_once(cfg, world, plan, cache=cache, keep_tensors=False)
+        o = run_once(cfg, world, plan, cache=cache, keep_tensors=False, info=shared)
+        if shared is not None:
+            o.info = dict(o.info)
+            stats['fault.info_dict_reused_across_calls'] = stats.get('fault.info_dict_reused_across_calls', 0) + 1
         runs += 1
         sim_time += o.sim_time
-        tag = 'plan %s' % cjson(plan)
+        tag = 'plan %s%s' % (cjson(plan), ' (info dictionary re-used from the previous call)' if shared is not None else '')
         st = {}
         good = check_direct(o, cfg, plan, ck, n, V, st, tag)
         for k, v in st.items():
@@ -712,7 +723,7 @@ def check_info_truth(o, world, Ypre, V, tag, stats):
         np_ = np.linalg.norm(fp)
         ref = np.linalg.norm(full - fp) / np_ if np_ > 0 else -1
         got = info.get('e', -1)
-        if np_ > 1e-50 and not (abs(got - ref) <= 1e-7 + 1e-5 * ref):     # below 1e-100 the library reports the documented sentinel -1
+        if np_ > 1e-90 and not (abs(got - ref) <= 1e-7 + 1e-5 * ref):     # below 1e-100 the library reports the documented sentinel -1
             V.append(viol(P, 'info-e', '%s: info[e]=%r but the distance of the returned tensor to the previous sweep is %r (stop=%s, sweeps=%d)'
                           % (tag, got, ref, stop, nsw)))
         stats['probe.info_e_checked'] = stats.get('probe.info_e_checked', 0) + 1
@@ -765,6 +776,7 @@ def execute_incarnations(scen):
         if v != float(T[k]):
             raise RuntimeError('harness: bad pre-populated value')
     evaluated = {}                 # index -> value, over the whole incarnation sequence
+    shared = {} if scen.get('share_info') else None     # one info dictionary (progress record) kept by the caller across all calls
     same_y0 = True
     Y0 = None
     cur_twin = tw
@@ -803,7 +815,10 @@ def execute_incarnations(scen):
             else:
                 plan['cb_at'] = 1 + int(q * max(1, len(cur_twin.mon.snaps)))
         before = dict(cache)
-        o = run_once(cfg, world, plan, cache=cache, Y0=Y0)
+        o = run_once(cfg, world, plan, cache=cache, Y0=Y0, info=shared)
+        if shared is not None:
+            o.info = dict(o.info)
+            Fk('info_dict_reused_across_calls')
         runs += 1
         sim += o.sim_time
         tag = 'incarnation %d plan %s' % (ci + 1, cjson(plan))
@@ -909,6 +924,19 @@ def execute_incarnations(scen):
         h.append((cjson(plan), stop, o.info.get('m'), o.info.get('m_cache'), nsw, [G.tobytes() for G in o.Y]))
         if V:
             break
+    # the caller's progress record has been through cached, interrupted and restarted calls: an uncached fault-free call that
+    # re-uses it must still behave exactly like the twin
+    if shared is not None and not V:
+        o2 = run_once(cfg, world, {}, info=shared)
+        runs += 1
+        if o2.Y is None:
+            V.append(viol(prop, 'exception', 'uncached call re-using the info dictionary failed: %r %r' % (o2.exc, o2.abort)))
+        elif not tt_equal_bits(o2.Y, tw.Y) or o2.info.get('nswp') != tw.info.get('nswp') or o2.info.get('stop') != tw.info.get('stop') \
+                or o2.info.get('m') != tw.info.get('m'):
+            V.append(viol(prop, 'transparency-info-reuse', 'an uncached fault-free call that re-uses the info dictionary of earlier (cached / interrupted) calls differs from '
+                          'the same call with a fresh dictionary: stop %r vs %r, sweeps %r vs %r, m %r vs %r, cores %s'
+                          % (o2.info.get('stop'), tw.info.get('stop'), o2.info.get('nswp'), tw.info.get('nswp'), o2.info.get('m'), tw.info.get('m'),
+                             'equal' if tt_equal_bits(o2.Y, tw.Y) else 'differ')))
     # evaluations over the whole sequence never exceed what the uncached run needs (same start tensor only)
     if same_y0 and scen['cache0'] != 'foreign' and not V:
         distinct = set()
@@ -1021,6 +1049,10 @@ def shrink(scen, v):
             if c.get('fresh_y0'):
                 s = cp(); s['crashes'][i]['fresh_y0'] = False; yield s
     # configuration
+    if scen.get('share_info'):
+        s = cp(); s['share_info'] = False; yield s
+    if cfg['target'].get('scale'):
+        s = cp(); s['cfg']['target'].pop('scale'); yield s
     for key, val in (('log', False), ('latency', []), ('jumps', {}), ('ret_list', False), ('ret', 'f64'), ('e', None),
                      ('e_vld', None), ('vld', None), ('k0', 100), ('tau', 1.1), ('tau0', 1.05), ('m_cache_scale', 5)):
         if cfg.get(key) != val:
